@@ -699,7 +699,7 @@ def replay(data: dict) -> int:
 def main(ck: Check) -> int:
     quick = ck.tier == 'quick'
     proof = ck.prove(MODULE, PROP_FILE)
-    ex = explore(ck, n=400 if quick else 6000, seed=ck.seed, n_opt=60 if quick else 600)
+    ex = explore(ck, n=300 if quick else 10000, seed=ck.seed, n_opt=40 if quick else 800)
     ck.decide(proof, ex, deep_search=lambda: deep_search(ck, n=1500 if quick else 6000, seed=ck.seed + 1000, n_opt=100))
     ck.evidence(proof, ex,
                 level_note='Lean proof for every class (any member mix, nesting depth, inheritance) by mutual structural induction over '
